@@ -45,6 +45,13 @@ def make_rsa(rng: Rng, bits: int = 2048, params=None, avoid: RKey | None = None)
     return RKey("RSA", None, base.pub, base.priv, None, dict(params or {}))
 
 
+def warm_rsa_cache() -> None:
+    """load every pool key once (50 ms of OpenSSL key checks each); useful before forking per-run children"""
+    for i, j in enumerate(rsa_pool()):
+        if i not in _RSA_CACHE:
+            _RSA_CACHE[i] = rk.from_jwk({k: v for k, v in j.items() if k != "bits"})
+
+
 def make_oct(rng: Rng, nbytes: int = 32, params=None) -> RKey:
     return RKey("oct", k=rng.bytes_(nbytes), params=dict(params or {}))
 
